@@ -446,6 +446,13 @@ class FakeSocket:
             raise ssl.SSLError(errno.EINTR, "Interrupted system call")
         if not self.rx:
             if self.eof:
+                # end-of-stream is reported again on every further read, as a real socket does; a reader that does not take
+                # it for an answer would spin for ever (and hang the check), so the twentieth such read in a row is flagged
+                # and ended with a timeout
+                self.eof_reads = getattr(self, "eof_reads", 0) + 1
+                if self.eof_reads >= 20:
+                    net.flags.append(("keeps-reading-after-end-of-stream", net.call, {"sock": self.id, "reads": self.eof_reads}))
+                    raise _real.timeout("timed out (the peer closed the connection %d reads ago)" % self.eof_reads)
                 return b""
             if net.call in net.tampered_calls or getattr(self, "silenced", False):
                 # the harness itself cut this call's reply short: waiting is correct, the I/O timeout ends it
